@@ -46,28 +46,28 @@ func expected(hist string, file string, pos uint64) *expCache {
 
 var methRe = regexp.MustCompile(`\(\*(\w+)\)\.(\w+)`)
 
+// SiteClass reduces a call stack ("f1 < f2 < ...", innermost first) to the
+// pair (gobinlog method, driver method) that identifies a call site.
+func SiteClass(site string) string { return siteClass(site) }
+
 func siteClass(site string) string {
 	frames := strings.Split(site, " < ")
-	drv, lib := "", ""
 	for _, f := range frames {
-		if drv == "" && strings.HasPrefix(f, "mysql.(*DumpConn).") {
-			drv = "DumpConn." + strings.TrimPrefix(f, "mysql.(*DumpConn).")
-		}
-		if lib == "" && strings.HasPrefix(f, "gobinlog.") {
+		if strings.HasPrefix(f, "gobinlog.") {
 			if m := methRe.FindAllStringSubmatch(f, -1); len(m) > 0 {
-				lib = m[len(m)-1][1] + "." + m[len(m)-1][2]
-			} else {
-				lib = strings.TrimPrefix(f, "gobinlog.")
-				if i := strings.Index(lib, ".func"); i >= 0 {
-					lib = lib[:i]
-				}
+				return m[len(m)-1][1] + "." + m[len(m)-1][2]
 			}
+			lib := strings.TrimPrefix(f, "gobinlog.")
+			if i := strings.Index(lib, ".func"); i >= 0 {
+				lib = lib[:i]
+			}
+			return lib
 		}
 	}
-	if drv == "" && lib == "" {
-		return site
+	if len(frames) > 0 {
+		return frames[0]
 	}
-	return lib + "/" + drv
+	return site
 }
 
 // Check evaluates every oracle on a complete (not pruned) execution.
